@@ -13,7 +13,7 @@ pub struct WorkerCtx {
     pub tier: Tier,
     pub seed: u64,
     pub args: Vec<String>,
-    counters: BTreeMap<String, u64>,
+    pub counters: BTreeMap<String, u64>,
     vios: BTreeMap<String, (u64, String, J)>,
     samples: Vec<J>,
 }
